@@ -22,7 +22,8 @@ THEOREMS = [
 ]
 RULE = (
     "as C01, with clusters of estimates around one ground truth (70 %), exact duplicates and symmetric offsets (exact "
-    "ties), unknown-labelled estimates and FP-labelled ground truth over-represented; a case is non-trivial when both "
+    "ties), unknown-labelled estimates and FP-labelled ground truth over-represented, numeric type variants of all "
+    "numeric parameters (int / numpy scalar types / arrays, same values) in 35 % of the cases; a case is non-trivial when both "
     "lists are non-empty; the independent greedy is compared on the cases whose candidate scores are pairwise different"
 )
 TRUSTED = base.TRUSTED + [
